@@ -13,6 +13,8 @@ import (
 	"encoding/hex"
 	"fmt"
 	"hash"
+	"os"
+	"path/filepath"
 	"sync"
 	"time"
 
@@ -97,6 +99,23 @@ func ovCryptBody(op byte, session []byte, rpid, ts uint32, acks byte, pid uint32
 	out := append([]byte{}, hdr[1:]...)
 	out = append(out, tag...)
 	return append(out, enc...)
+}
+
+var ovKeyDir string
+var ovKeyDirOnce sync.Once
+
+// ovKeyFile writes a key file once per process and returns its path
+func ovKeyFile(name, body string) (string, error) {
+	var err error
+	ovKeyDirOnce.Do(func() { ovKeyDir, err = os.MkdirTemp("", "verif-ovpn-keys-") })
+	if err != nil || ovKeyDir == "" {
+		return "", fmt.Errorf("key directory: %v", err)
+	}
+	p := filepath.Join(ovKeyDir, name+".key")
+	if _, serr := os.Stat(p); serr == nil {
+		return p, nil
+	}
+	return p, os.WriteFile(p, []byte(body), 0o600)
 }
 
 var ovChecked error
@@ -209,6 +228,9 @@ func encodeOpenVPN(v *wireVec) (*wireCase, error) {
 		return nil, fmt.Errorf("openvpn mode %q", mode)
 	}
 	msg := append([]byte{op}, body...)
+	for i := 0; i < mi(m, "pad"); i++ {
+		msg = append(msg, 0xEE)
+	}
 	if v.Net == "tcp" {
 		l := len(msg)
 		switch ms_(m, "lenfield") {
@@ -233,8 +255,24 @@ func encodeOpenVPN(v *wireVec) (*wireCase, error) {
 	if b, _ := cfg["ignore_crypto"].(bool); b {
 		cc["ignore_crypto"] = true
 	}
+	file := ms_(cfg, "via") == "file"
 	if k := ms_(cfg, "group_key"); k != "none" {
-		cc["group_key"] = hex.EncodeToString(ovGroup[k])
+		if file {
+			// an OpenVPN static key file: comment lines, 16 lines of 32 hex digits between the markers
+			h := hex.EncodeToString(ovGroup[k])
+			body := "#\n# 2048 bit OpenVPN static key\n#\n-----BEGIN OpenVPN Static key V1-----\n"
+			for i := 0; i < len(h); i += 32 {
+				body += h[i:i+32] + "\n"
+			}
+			body += "-----END OpenVPN Static key V1-----\n"
+			p, err := ovKeyFile("group-"+k, body)
+			if err != nil {
+				return nil, err
+			}
+			cc["group_key_file"] = p
+		} else {
+			cc["group_key"] = hex.EncodeToString(ovGroup[k])
+		}
 	}
 	if d := ms_(cfg, "auth_digest"); d != "" {
 		cc["auth_digest"] = d
@@ -242,11 +280,36 @@ func encodeOpenVPN(v *wireVec) (*wireCase, error) {
 	if d := ms_(cfg, "direction"); d != "" {
 		cc["group_key_direction"] = d
 	}
+	b64file := func(name, kind, b64 string) (string, error) {
+		body := "-----BEGIN OpenVPN tls-crypt-v2 " + kind + " key-----\n"
+		for i := 0; i < len(b64); i += 64 {
+			body += b64[i:min(i+64, len(b64))] + "\n"
+		}
+		body += "-----END OpenVPN tls-crypt-v2 " + kind + " key-----\n"
+		return ovKeyFile(name, body)
+	}
 	if k := ms_(cfg, "server_key"); k != "none" {
-		cc["server_key"] = base64.StdEncoding.EncodeToString(ovSrv[k])
+		b64 := base64.StdEncoding.EncodeToString(ovSrv[k])
+		if file {
+			p, err := b64file("server-"+k, "server", b64)
+			if err != nil {
+				return nil, err
+			}
+			cc["server_key_file"] = p
+		} else {
+			cc["server_key"] = b64
+		}
 	}
 	if k := ms_(cfg, "client_keys"); k != "none" {
-		cc["client_keys"] = []string{ovClientKey(k)}
+		if file {
+			p, err := b64file("client-"+k, "client", ovClientKey(k))
+			if err != nil {
+				return nil, err
+			}
+			cc["client_key_files"] = []string{p}
+		} else {
+			cc["client_keys"] = []string{ovClientKey(k)}
+		}
 	}
 	c.cfg = cc
 	return c, nil
